@@ -12,7 +12,6 @@ import (
 	"github.com/cbeuw/Cloak/internal/client"
 	"github.com/cbeuw/Cloak/internal/common"
 	mux "github.com/cbeuw/Cloak/internal/multiplex"
-	"github.com/cbeuw/Cloak/internal/server"
 	"github.com/cbeuw/Cloak/internal/simsync"
 	"github.com/cbeuw/Cloak/verifsim/simnet"
 )
@@ -38,6 +37,15 @@ type FullTrafficScenario struct {
 	FaultLink  int    `json:"fault_link,omitempty"`
 	FaultDir   int    `json:"fault_dir,omitempty"`
 	FaultAfter int    `json:"fault_after,omitempty"` // after that many writes on (link, dir)
+	// Congestion (full-traffic): every link has a bounded send window (a writer
+	// blocks once that many bytes are outstanding), and after StallAfter writes
+	// one transport connection of the session stops delivering in one direction
+	// for StallMS - longer than any timeout of the session - then resumes
+	Window     int `json:"window,omitempty"`
+	StallLink  int `json:"stall_link,omitempty"`
+	StallDir   int `json:"stall_dir,omitempty"`
+	StallAfter int `json:"stall_after,omitempty"`
+	StallMS    int `json:"stall_ms,omitempty"`
 }
 
 func genFullTraffic(g *Gen, faults bool) *FullTrafficScenario {
@@ -71,6 +79,16 @@ func genFullTraffic(g *Gen, faults bool) *FullTrafficScenario {
 			sc.Conns[i].PauseMS = sc.Client.StreamTimeout*1000 + g.Pick(500, 1500, 30000)
 		}
 	}
+	if !faults && sc.Client.StreamTimeout == 0 && g.Bool(0.12) {
+		sc.Client.Transport, sc.Client.NumConn = "direct", g.Pick(2, 2, 4)
+		sc.Window = g.Pick(4096, 16384, 65536)
+		sc.StallLink, sc.StallDir = g.Int(0, sc.Client.NumConn-1), g.Int(0, 1)
+		sc.StallAfter, sc.StallMS = g.Int(2, 12), g.Pick(31000, 45000, 75000)
+		for i := range sc.Conns {
+			sc.Conns[i].Up = max(sc.Conns[i].Up, g.Int(20000, 150000))
+			sc.Conns[i].Down = max(sc.Conns[i].Down, g.Int(20000, 150000))
+		}
+	}
 	if faults {
 		sc.FaultKind = []string{"reset", "eof0", "eof1"}[g.Rng.IntN(3)]
 		sc.FaultLink = g.Int(0, cp.NumConn-1)
@@ -92,25 +110,25 @@ func appHeader(tag uint32, up, down int) []byte {
 }
 
 type fullConnState struct {
-	plan      StreamPlan
-	tag       uint32
-	appRead   int
-	upRead    int
-	appDone   bool // the proxy client side is finished (all read, or the connection ended)
-	upDone    bool
-	appErr    error
-	upErr     error
-	upSeen    bool
-	acked     bool // the proxy server confirmed that it received the whole upload
-	badData   string
+	plan    StreamPlan
+	tag     uint32
+	appRead int
+	upRead  int
+	appDone bool // the proxy client side is finished (all read, or the connection ended)
+	upDone  bool
+	appErr  error
+	upErr   error
+	upSeen  bool
+	acked   bool // the proxy server confirmed that it received the whole upload
+	badData string
 }
 
 type fullRun struct {
-	c      *Ctx
-	sc     *FullTrafficScenario
-	conns  []*fullConnState
-	key    uint64
-	limit  int
+	c     *Ctx
+	sc    *FullTrafficScenario
+	conns []*fullConnState
+	key   uint64
+	limit int
 }
 
 // pattern upstream: verifies what it receives and produces what was asked.
@@ -254,11 +272,21 @@ func runFullTraffic(c *Ctx, scAny any) {
 	c.Net.TapOn = true
 	c.Net.DefaultPartial = sc.Partial
 	cp := sc.Client
-	w := NewSrvWorld(c, SrvParams{NBypass: 1})
+	sp := SrvParams{NBypass: 1}
+	if sc.Seed%3 == 1 {
+		// the server side is the shipped main() of cmd/ck-server, in half of
+		// these cases bound to two addresses with the client using the second
+		sp.RealMain = true
+		if sc.Seed%2 == 0 && !strings.EqualFold(cp.Transport, "cdn") {
+			sp.BindAddrs = []string{srvAddr, "10.0.0.2:8443"}
+			cp.RemotePort = "8443"
+		}
+	}
+	w := NewSrvWorld(c, sp)
 	defer w.Cleanup()
 	cp.UID = w.Bypass[0]
 	NewEdgeStub(c)
-	simsync.Go("h:serve", func() { server.Serve(w.Front, w.Sta) })
+	w.Serve()
 	r := &fullRun{c: c, sc: sc, key: sc.PatKey, limit: 16401 - 14 - 255}
 	for i, pl := range sc.Conns {
 		r.conns = append(r.conns, &fullConnState{plan: pl, tag: uint32(i)})
@@ -291,6 +319,19 @@ func runFullTraffic(c *Ctx, scAny any) {
 	d := &simnet.Dialer{Net: c.Net, LocalIP: "10.0.6.1", Tag: "front", KeepAlive: remote.KeepAlive}
 	var made []*mux.Session
 	firstSessionLinks := 0
+	if sc.Window > 0 {
+		c.Net.SendWindow = sc.Window
+		seen := 0
+		c.Net.OnLink = func(l *simnet.Link) {
+			if l.Tag == "front" || l.Name == "front" {
+				if seen == sc.StallLink {
+					l.Script = append(l.Script, simnet.ScriptedFault{Dir: sc.StallDir, AfterWrite: sc.StallAfter, Kind: fmt.Sprintf("stall:%d:%d", sc.StallDir, sc.StallMS)})
+				}
+				seen++
+			}
+		}
+		c.Probe("congested")
+	}
 	if sc.FaultKind != "" {
 		// the fault hits a transport connection of the first session
 		seen := 0
